@@ -2,6 +2,7 @@
 # usage: confirm_seed.sh <seed-dir> <package-dir-for-demo> <go test -run pattern>
 # Confirms in a scratch worktree (outside /repo and /verif) that a seeded change compiles, keeps the existing suite green,
 # and that its demonstration fails with the change and passes without it. Writes <seed-dir>/confirm.json.
+VERIF=$(cd "$(dirname "$0")/.." && pwd)
 set -u
 SD=$(realpath "$1"); PKG=$2; PAT=$3
 export GOFLAGS=-mod=mod GOPROXY=off GOSUMDB=off GOTOOLCHAIN=local
@@ -13,7 +14,7 @@ cp $SD/demo_test.go $WT/$PKG/zz_seed_demo_test.go
 ( cd $WT/$PKG && go test -count=1 -vet=off -run "$PAT" . > $WT/demo_without.log 2>&1 ); RC_WITHOUT=$?
 rm $WT/$PKG/zz_seed_demo_test.go
 git -C $WT apply $SD/patch.diff || { echo "patch does not apply"; exit 2; }
-SUITE=$(/verif/tools/suite.sh $WT 2>&1 | head -1)
+SUITE=$($VERIF/tools/suite.sh $WT 2>&1 | head -1)
 cp $SD/demo_test.go $WT/$PKG/zz_seed_demo_test.go
 ( cd $WT/$PKG && go test -count=1 -vet=off -run "$PAT" . > $WT/demo_with.log 2>&1 ); RC_WITH=$?
 python3 - "$SD" "$SUITE" "$RC_WITHOUT" "$RC_WITH" "$PKG" "$PAT" <<'PY'
